@@ -237,10 +237,14 @@ def gen_ints():
             out.append((form, {'is_valid_port': ACCEPT if 0 <= v <= 65535 else REJECT,
                                'is_valid_icmp_type': ACCEPT if 0 <= v <= 255 else REJECT,
                                'is_valid_icmp_code': ACCEPT if 0 <= v <= 255 else REJECT}))
-    for odd in ('+1', '-0', ' 1', '1 ', '1_0', '1.0', '1e1', '0x1', '', 'abc', None, True, 1.5, '²', '8²', '①', '-³',
+    for odd in ('+1', '-0', ' 1', '1 ', '1_0', '1.0', '1e1', None, True, 1.5, '²', '8²', '①', '-³',
                 ' ⁵ ', '١٢', '1\x00', '\x00'):
         out.append((odd, {'is_valid_port': NOFAIL, 'is_valid_icmp_type': NOFAIL,
                           'is_valid_icmp_code': ACCEPT if odd is None else NOFAIL}))
+    # strings that are no number in any reading: not a port, not an ICMP type, not an ICMP code
+    for junk in ('', 'abc', '1.0', '1e1', '0x1', 'None', 'zero', '-', '+', '1,0', '1 0', '0b1', 'ten'):
+        out.append((junk, {'is_valid_port': REJECT, 'is_valid_icmp_type': REJECT,
+                           'is_valid_icmp_code': REJECT}))
     return out
 
 
